@@ -200,6 +200,11 @@ func init() {
 						wantToks = append(wantToks, tok)
 					}
 				}
+				if rng.Chance(1, 5) {
+					// a slide-list entry whose relationship is missing: that entry alone is skipped
+					at := rng.Intn(len(rids) + 1)
+					rids = append(rids[:at], append([]string{fmt.Sprintf("rIdDangling%d", it)}, rids[at:]...)...)
+				}
 				if rng.Chance(1, 3) {
 					zms = append(zms, zipMember{Name: "ppt/slides/slide98.xml", Data: []byte(pptxSlideXML([]string{"tok99998x"}))})
 					members = append(members, [2]string{"ppt/slides/slide98.xml", "tok99998x"})
